@@ -141,6 +141,22 @@ def d2(chk, prog, ploidies):
                     okc = okc and (gt == f"0/1:0:{cn}:{rows[i]['probes']}" or (isinstance(gt, FStr) and any(isinstance(p, FVal) and same(p.v, cn) for p in gt.parts)))
             tb.cell(okc, dict(ploidy=P, hap=hap, fem=fem, par=par, cls=c, cn=cn, expected=x, start0=rows[i]["start"].is_const(), record={k: repr(v)[:60] for k, v in info.items()}))
         tb.cell(j == len(recs), dict(ploidy=P, hap=hap, fem=fem, par=par, records_emitted=len(recs), records_wanted=j, note="one record per non-neutral segment and no others"))
+    # a row whose probe count is not a number (files from v0.7.1) gives no record and leaves the other rows' records as they are
+    for hap, fem in itertools.product([False, True], [False, True]):
+        W.reset()
+        classes = ["auto", "auto", "x", "y", "x", "auto"]
+        cns = [3, 1, 1, 1, 2, 2]
+        rows = seg_rows(classes, "chr", cns)
+        rows[1]["probes"] = "-"
+        g = make_ga("CopyNumArray", rows, {"_classes": classes, "sample_id": "S"}, index="range")
+        it = Interp(prog, par_model())
+        out = tb.guard(lambda: list(it.run(fi.qn, [g, 2, hap, None, fem])), f"malformed probe count, hap={hap} fem={fem}")
+        if out is None:
+            continue
+        want = [(rows[i]["chromosome"], "DEL" if cn < ref_exp_oracle(c, 2, hap, fem, None)[1] else "DUP") for i, (c, cn) in enumerate(zip(classes, cns))
+                if i != 1 and cn != ref_exp_oracle(c, 2, hap, fem, None)[1]]
+        got = [(r[0], str(r[4]).strip("<>")) for r in out]
+        tb.cell(got == want, dict(case="second row has probes '-'", hap=hap, fem=fem, records=got, want=want))
     tb.done("export vcf does not emit exactly the non-neutral segments with the stated POS / END / SVTYPE / SVLEN / CN")
     fv = prog.fn(f"{EXP}.export_vcf")
     ok = any(isinstance(n, ast.Call) and norm(n.func) == "segments2vcf" and [norm(a) for a in n.args] == ["segments", "ploidy", "is_haploid_x_reference", "diploid_parx_genome", "is_sample_female"] for n in own_nodes(fv.node))
